@@ -94,7 +94,19 @@ def run():
             continue
         jobs.append({"id": "m-" + name, "kind": "decisions", "base": js(b), "decisions": js(D), "twice": True})
         mjobs[name] = enc_js(to_plain(merged))
+    # ---- (4) the decision format itself: TLC-generated decision lists (DecisionModel.tla), as the server can send them ---
+    from . import decmodel
+    dm = decmodel.run_models(chk)
+    dm_cases = {}
+    for kind, cases in dm.items():
+        send = [c for c in cases if decmodel.ts_sendable(c)]
+        dm_cases[kind] = decmodel.sample(send, r, 4000 if chk.quick else None)
+        jobs += decmodel.ts_jobs(dm_cases[kind], kind)
     res = tsrun.run_jobs(jobs)
+    dm_n = {kind: decmodel.check_ts(chk, cs, kind, res) for kind, cs in dm_cases.items()}
+    chk.cov["traces_validated_against_impl"] += sum(dm_n.values())
+    chk.notes["DecisionModel_vs_applyDecisions_ts"] = {"cases_replayed": dm_n, "rule": "TLC-generated (base, decision list, expected "
+        "document) in forward order with the actions the web tool's strategy can emit, applied by the TypeScript applyDecisions"}
     # attach TS results
     for ev in events:
         rr_ = res.get(ev["tid"])
